@@ -39,6 +39,11 @@ def commonWidth : List Width → Option Width
       let r ← commonWidth rest
       if compatible w r then some (join w r) else none
 
+/-- for each arm of a case expression: is its condition always true? -/
+def condTruth (isTrue : Ex → Bool) : Opts → List Bool
+  | .nil => []
+  | .cons c _ rest => isTrue c :: condTruth isTrue rest
+
 mutual
 /-- the width rules of C08/C17; `none` = some rule is violated.
     `isTrue c` says whether a condition is "always true" (a constant expression with non-zero value). -/
@@ -73,14 +78,11 @@ def typeOf (fl : Flags) (Γ : String → Option Width) (isTrue : Ex → Bool) : 
   | .mux opts => do
       let ws ← typeOfOpts fl Γ isTrue opts
       let w ← commonWidth ws
-      let trues := (opts.toList.map (fun o => isTrue o.1))
-      let nTrue := (trues.filter id).length
-      -- options after the first always-true one are unreachable
-      let unreachable := match trues.idxOf true with
-        | i => decide (i + 1 < trues.length)
-      if fl.requireMuxDefault && nTrue == 0 then none
-      else if fl.disallowMultipleMuxDefault && nTrue > 1 then none
-      else if fl.disallowUnreachable && unreachable then none
+      let trues := condTruth isTrue opts
+      -- a default arm is required / at most one arm may be always true / nothing may follow an always-true arm
+      if fl.requireMuxDefault && !trues.any id then none
+      else if fl.disallowMultipleMuxDefault && decide ((trues.filter id).length > 1) then none
+      else if fl.disallowUnreachable && trues.dropLast.any id then none
       else some w
   | .inSet e items => do
       let a ← typeOf fl Γ isTrue e
